@@ -5,7 +5,7 @@ import importlib, json, os, sys, time, traceback
 HERE = os.path.dirname(os.path.abspath(__file__))
 sys.path.insert(0, HERE)
 
-import extract
+import extract, normalize
 from core import Report, merge_reports, finish
 from mir import Facts
 
@@ -23,7 +23,9 @@ def get_facts(config, thash):
     key = (config, thash)
     if key not in _facts_cache:
         d = extract.ensure_facts(config, thash)
-        _facts_cache[key] = Facts(d)
+        f = Facts(d)
+        normalize.apply(f)
+        _facts_cache[key] = f
     return _facts_cache[key]
 
 
@@ -48,7 +50,8 @@ def run_prop(prop, tier):
             reports.append(rep)
             continue
         cfg_info.append({"config": cfg, "crates": {c.name: len(c.bodies) for c in facts.crates.values()},
-                         "features": {c.name: c.features for c in facts.crates.values()}})
+                         "features": {c.name: c.features for c in facts.crates.values()},
+                         "normalization": list(getattr(facts, "normalize_log", []))})
         try:
             mod.check(facts, rep, tier, cfg)
         except Exception as e:  # fail closed
